@@ -1,15 +1,22 @@
-"""Fresh-interpreter stub generation for C14 (PYTHONHASHSEED set by the parent): prints the stub of vfx.shapes."""
+"""Fresh-interpreter stub generation for C14 (PYTHONHASHSEED set by the parent): prints the stubs of the fixture modules in
+canonical order; argv[5] == "rev" generates them in the REVERSE order (what one stub generation leaves behind in the process
+must not show in the next one)."""
+import io
 import sys
 
 db, k, rewriting = sys.argv[1], int(sys.argv[2]), sys.argv[3] == "1"
 import mcfg  # noqa: E402
 from monkeytype import cli  # noqa: E402
 
+MODS = ["vfx.shapes", "vfx.shapes2", "vfx.twa", "vfx.twb"]
 mcfg.reset(db=db, k=k, limit=int(sys.argv[4]) if len(sys.argv) > 4 else None)
 rc_all = 0
-for i, mod in enumerate(["vfx.shapes", "vfx.shapes2"]):
-    if i:
-        sys.stdout.write("\n#####MODULE#####\n")
+outs = {}
+order = list(reversed(MODS)) if len(sys.argv) > 5 and sys.argv[5] == "rev" else MODS
+for mod in order:
+    out = io.StringIO()
     argv = ["-c", "mcfg:fresh()"] + ([] if rewriting else ["--disable-type-rewriting"]) + ["stub", mod]
-    rc_all |= cli.main(argv, sys.stdout, sys.stderr)
+    rc_all |= cli.main(argv, out, sys.stderr)
+    outs[mod] = out.getvalue()
+sys.stdout.write("\n#####MODULE#####\n".join(outs[m] for m in MODS))
 sys.exit(rc_all)
